@@ -698,6 +698,8 @@ def stream_bonds(ctx, programs):
     resp = core.run_driver('C08', lines)
     for key, real, model, ln in zip(keys, reals, resp, lines):
         ctx.count(key, n=max(1, len(real)) if key[0] in ('beq', 'beqi') else 1)
+        if real.startswith('err') and model.startswith('err'):
+            continue
         if real != model:
             disagree(ctx, 'bond-' + key[0], f'{ln[:200]}: real {real} model {model}', {'kind': 'bond', 'line': ln})
     ctx.dist('bond:cases', len(lines))
@@ -732,6 +734,8 @@ def stream_from_atom(ctx, programs):
     resp = core.run_driver('C08', lines)
     for key, real, model in zip(keys, reals, resp):
         ctx.count(key)
+        if real.startswith('err') and model.startswith('err'):
+            continue
         if real != model:
             disagree(ctx, 'from_atom', f'{key}: real {real} model {model}', {'kind': 'from_atom_env', 'matom': list(key[1]), 'flags': list(key[2])})
 
@@ -773,12 +777,19 @@ def stream_labels(ctx, programs):
             disagree(ctx, 'calc_labels', f'{name}: real {real[:300]} model {model[:300]}', {'kind': 'labels', 'mol': [int(x) for x in ln.split()[1:]]})
 
 
+class PrivateApiChanged(Exception):
+    pass
+
+
 def real_query_parse(s):
     from chython.files.daylight.tokenize import _query_parse
     try:
-        t, out = _query_parse(s)
+        res = _query_parse(s)
     except Exception as e:
         return 'err ' + type(e).__name__
+    if not (isinstance(res, tuple) and len(res) == 2 and isinstance(res[1], dict) and 'element' in res[1]):
+        raise PrivateApiChanged(f'_query_parse returns {type(res).__name__}')
+    t, out = res
 
     def iol(v):
         if v is None:
@@ -812,7 +823,11 @@ def stream_query_parse(ctx, programs):
     lines = [line('qp', cps(s)) for s in strs]
     resp = core.run_driver('C08', lines)
     for s, model in zip(strs, resp):
-        real = real_query_parse(s)
+        try:
+            real = real_query_parse(s)
+        except PrivateApiChanged as e:
+            ctx.notes.append(f'private stream _query_parse abandoned ({e}); the public smarts() streams decide')
+            return
         ctx.count(('qp', s))
         ctx.dist('qp:' + (real.split()[1] if real.startswith('err') else 'ok'))
         if real != model:
@@ -1234,6 +1249,8 @@ def stream_api(ctx, programs):
     for (spec, sub), real, model in zip(metas, reals, resp):
         ctx.count(('api', json_key(spec)), n=len(sub) if sub else 1)
         ctx.dist('api:' + ('rejected' if real.startswith('err') else 'built'))
+        if real.startswith('err') and model.startswith('err'):
+            continue      # rejected by both; the exception class of the query API is not part of the property
         if ' '.join(real.split()) != ' '.join(model.split()):
             disagree(ctx, 'query-api', f'{spec}: real {real[:160]} model {model[:160]}', {'kind': 'api', 'spec': spec})
 
